@@ -739,7 +739,98 @@ def _counter_rules_structural(run, db):
               'the order counter does not start at 0 / is not advanced first in the pass', f.loc(lp))
 
 
+PACK_REQUESTS = (
+    [(2, 0), (3, 2), (1, -2), (0, 1)],          # all three families, gaps in n
+    [(1, 1), (2, -3)],                          # sine orders beyond the last cosine order
+    [(0, -2), (2, -2)],                         # sine only
+    [(4, 0)],                                   # rotationally symmetric only
+    [(1, 3), (0, 3)],                           # cosine only, m = 1, 2 absent, requests not sorted in n
+    [(0, 1), (0, -1), (2, 2), (2, -2), (1, 0)],
+)
+
+
+def pack_fixed_rules(run, db):
+    """Q2d_nm_c_to_a_b decided for fixed (n, m) lists and symbolic coefficients: the function is interpreted with the requests concrete
+    (its densification executed exactly) and every coefficient a symbol; the three returned structures must be the dense layout of the
+    documentation: cms[n] for m = 0, ams[m-1][n] for m > 0, bms[m-1][n] for m < 0, zeros in the gaps, lists for m = 1..max|m| (empty
+    when an order is absent from a family).  Bounded, independent of how the densification is organised."""
+    from .common import norm_interp
+    f = db.func(Q + 'Q2d_nm_c_to_a_b')
+    n_ok = 0
+    skipped = []
+    for reqs in PACK_REQUESTS:
+        it, dom = norm_interp(db)
+        cs = [dom.sym('c%d' % k) for k in range(len(reqs))]
+        res = [p for p in it.run(f, kwargs=lambda: {f.params[0]: Tup([Tup([Const(a), Const(b)]) for a, b in reqs], 'list'), f.params[1]: Tup(list(cs), 'list')}) if p.outcome == 'return']
+        if len(res) != 1 or not (isinstance(res[0].value, Tup) and len(res[0].value.items) == 3):
+            skipped.append('%s: %d returning paths' % (reqs, len(res)))
+            continue
+
+        def followed(v, depth):
+            if depth == 0:
+                return dom.rat(v) is not None
+            return isinstance(v, Tup) and all(followed(x, depth - 1) for x in v.items)
+        if not (followed(res[0].value.items[0], 1) and followed(res[0].value.items[1], 2) and followed(res[0].value.items[2], 2)):
+            skipped.append('%s: a returned structure is not followed' % (reqs,))
+            continue
+
+        def dense(pairs):
+            if not pairs:
+                return []
+            out = [Const(0)] * (max(n for n, _ in pairs) + 1)
+            for n, c in pairs:
+                out[n] = c
+            return out
+        want_c = dense([(n, c) for (n, m), c in zip(reqs, cs) if m == 0])
+        M = max([abs(m) for _, m in reqs if m != 0] or [0])
+        want_a = [dense([(n, c) for (n, m), c in zip(reqs, cs) if m == k]) for k in range(1, M + 1)]
+        want_b = [dense([(n, c) for (n, m), c in zip(reqs, cs) if m == -k]) for k in range(1, M + 1)]
+
+        def as_list(v):
+            return list(v.items) if isinstance(v, Tup) else None
+
+        def same(got, want):
+            if got is None or len(got) != len(want):
+                return False
+            for g, w in zip(got, want):
+                if isinstance(w, Const):
+                    if not (dom.rat(g) is not None and dom.rat(g).is_zero()):
+                        return False
+                elif not (dom.rat(g) is not None and dom.rat(g) == dom.rat(w)):
+                    return False
+            return True
+        gc, ga, gb = res[0].value.items
+        show = lambda v: repr(v)[:160]
+        bad = []
+        if not same(as_list(gc), want_c):
+            bad.append('the m = 0 coefficients come back as %s' % show(gc))
+        for fam, got, want in (('cosine', ga, want_a), ('sine', gb, want_b)):
+            gl = as_list(got)
+            if gl is None or len(gl) != len(want):
+                bad.append('the %s structure has %s lists, expected %d (m = 1..max|m|)' % (fam, len(gl) if gl is not None else 'an unknown number of', len(want)))
+                continue
+            for k, (g, w) in enumerate(zip(gl, want), start=1):
+                if not same(as_list(g), w):
+                    bad.append('the %s coefficients of m = %d come back as %s' % (fam, k, show(g)))
+        n_ok += 1
+        run.check(not bad, 'C10.pack', f.qual, 'requests %s' % (reqs,), 'Q2d_nm_c_to_a_b(%s) is the documented dense layout' % (reqs,),
+                  'Q2d_nm_c_to_a_b(%s): %s' % (reqs, '; '.join(bad[:3])), f.loc())
+    if skipped and hasattr(run, 'info'):
+        run.info('C10.pack: not decided for the fixed requests %s' % '; '.join(skipped))
+    return n_ok
+
+
 def pack_rules(run, db):
+    """two independent decisions; a refusal of one is covered by the other"""
+    decided = pack_fixed_rules(run, db)
+    try:
+        _pack_walk_rules(run, db)
+    except AnalysisError:
+        if not decided:
+            raise
+
+
+def _pack_walk_rules(run, db):
     f = db.func(Q + 'Q2d_nm_c_to_a_b')
     # the output lists cover m = 1 .. max KEY of both dictionaries
     # the packing walk is whatever consumes range(1, <bound> + 1) -- a for loop or comprehensions, directly or through a local bound
